@@ -148,6 +148,8 @@ def real_pointset(pts, d, use_jax, shards, fast_jax_base=False):
     from vizier._src.jax import xla_pareto as xp
     out['sharded'] = [bools(xp.is_frontier(a.copy(), num_shards=k)) for k in shards]
     out['jaxRank'] = [int(x) for x in np.asarray(xp.pareto_rank(a.copy())).reshape(-1)]
+    out['getFrontier'] = [sorted(map(list, np.asarray(xp.get_frontier(a.copy(), num_shards=k, verbose=False), dtype=float).reshape(-1, d).tolist()))
+                          for k in shards[:2]]
     if fast_jax_base:
       alg = po.FastParetoOptimalAlgorithm(xp.JaxParetoOptimalAlgorithm(), recursive_threshold=3)
       out['fastJax'] = bools(alg.is_pareto_optimal(a.copy()))
@@ -178,6 +180,11 @@ def judge_pointset(c, V, pts, d, real, model, shards):
       if r != frontv:
         c.prop_fail(KEY_SHARD1 if k == 1 else 'jax-is-frontier-other',
                     'xla_pareto.is_frontier(num_shards=%d) differs from the front' % k, dict(case, num_shards=k, real=r, front=frontv))
+  for k, rows in zip(shards[:2], real.get('getFrontier', [])):
+    want = sorted(list(p) for p, f in zip(pts, frontv) if f)
+    if rows != want:
+      c.prop_fail(KEY_SHARD1 if k == 1 else 'jax-is-frontier-other',
+                  'xla_pareto.get_frontier(num_shards=%d) does not return the points of the front' % k, dict(case, num_shards=k, real=rows, front_points=want))
   if 'fastJax' in real and real['fastJax'] != frontv:
     c.prop_fail(KEY_FAST if tie else 'pareto-fast-other', 'FastParetoOptimalAlgorithm(JaxParetoOptimalAlgorithm(), 3) differs from the front',
                 dict(case, thr=3, base='jax', real=real['fastJax'], front=frontv))
@@ -497,7 +504,8 @@ def gen_inram_case(rng):
       f = [list(kv) for kv in full]
       f[rng.randrange(nobj)][1] = NAN
       trials.append({'kind': 'completed', 'final': f})
-  return {'objs': objs, 'safety': safety, 'trials': trials, 'count': None}
+  count = rng.choice([None, None, None, 1, 2]) if nobj > 1 else None
+  return {'objs': objs, 'safety': safety, 'trials': trials, 'count': count}
 
 
 def run_inram_case(case):
@@ -567,7 +575,14 @@ def inram_stage(c, V, n):
     c.count(1, ('inram', json.dumps(canon_case(case))) if len(stored) >= 2 else None, kind='getbest:%s' % ('single' if single else 'multi'))
     cc = {'case': canon_case(case), 'stored': canon_case(stored), 'real': got, 'definition': m['def'], 'labels': m['labels']}
     as_written = (got == m['model']) and not V.inram_filters
-    if not single:
+    if not single and case['count'] is not None:
+      # "up to `count` of the Pareto optimal trials"
+      if not (set(got) <= set(m['def']) and len(got) == min(case['count'], len(m['def']))):
+        key = KEY_INRAM_NAN if (as_written and nan_row) else KEY_INRAM_INELIGIBLE if (as_written and ineligible_full) else 'inram-getbest-other'
+        c.prop_fail(key, 'GetBestTrials(count=%d) returned %s, the optimal trials are %s' % (case['count'], got, m['def']), cc)
+      if got != m['model']:
+        c.tie_break('InRamPolicySupporter.GetBestTrials (multi-objective, count)', cc, got, m['model'])
+    elif not single:
       if sorted(got) != sorted(m['def']):
         if as_written and nan_row:
           key = KEY_INRAM_NAN
